@@ -562,6 +562,43 @@ def run_retry_same_closure(res, chk, idx, n):
                     res["violations"].append({"sig": s, "case": case, "detail": "fresh make_vjp after the failure differs"})
                     continue
                 res["judged"][sig_key(dict(sig, k=k))] = 1
+            # the closure built at top level is applied *inside* another differentiation; its backward
+            # pass fails at the k-th rule, the enclosing function catches that and goes on with a nested
+            # differentiation that closes over the enclosing variable
+            from autograd import grad as _grad
+
+            def enclosing(t, fail):
+                try:
+                    r_ = vjp(g)
+                    extra = anp.sum(onp.asarray(r_)) * 0.0
+                except Fault:
+                    extra = 0.0
+                inner = _grad(lambda z: anp.sum(z * t) ** 2)(t * 0.5 + 0.1)
+                return anp.sum(t * inner) + extra
+
+            state.update(n=0, at=None)
+            ref_enc = common.enc(onp.asarray(_grad(lambda t: enclosing(t, False))(x3)))
+            for k in range(1, total + 1):
+                res["evaluations"] += 1
+                sig = {"engine": "history", "fault": "rule_application_in_closure_applied_inside_enclosing", "prog": pname}
+                case = {"kind": "retry", "prog": pname, "k": k, "phase": "enclosing"}
+                state.update(n=0, at=k)
+                try:
+                    r = common.enc(onp.asarray(_grad(lambda t: enclosing(t, True))(x3)))
+                except Exception as e:
+                    state.update(n=0, at=None)
+                    res["violations"].append({"sig": dict(sig, symptom="history_dependence"), "case": case, "detail": "enclosing differentiation raised %s after catching a failure at rule %d of a VJP built outside: %s" % (type(e).__name__, k, str(e)[:150])})
+                    continue
+                state.update(n=0, at=None)
+                res["counters"]["faults_injected"] = res["counters"].get("faults_injected", 0) + 1
+                if r != ref_enc:
+                    res["violations"].append({"sig": dict(sig, symptom="history_dependence", where="enclosing_result"), "case": case, "detail": "enclosing result %s after a caught failure at rule %d of a VJP built at top level; fault-free %s" % (common.brief(common.dec(r)), k, common.brief(common.dec(ref_enc)))})
+                    continue
+                bad = chk.rotating()
+                if bad:
+                    res["violations"].append({"sig": dict(sig, symptom="history_dependence", canary=bad[0]), "case": case, "detail": bad[1]})
+                    break
+                res["judged"][sig_key(dict(sig, k=k))] = 1
 
 
 def registry_snapshot():
